@@ -173,6 +173,13 @@ func (p *redisProc) handleConn(conn net.Conn) {
 	s.Serve()
 }
 
+// singleLine replaces CR and LF: an error reply is a single line, and client
+// supplied text containing a line break would end the reply early and
+// desynchronise the connection.
+func singleLine(s string) string {
+	return strings.NewReplacer("\r", " ", "\n", " ").Replace(s)
+}
+
 func (p *redisProc) handleRequest(req *rawRequest) {
 	// rawRequest metrics
 	p.stats.Downstream.RqTotal.Inc()
@@ -197,7 +204,7 @@ func (p *redisProc) handleRequest(req *rawRequest) {
 	hdlr, ok := p.findHandler(cmd)
 	if !ok {
 		// unsupported command
-		req.SetResponse(newError(fmt.Sprintf("ERR unsupported command '%s'", cmd)))
+		req.SetResponse(newError(fmt.Sprintf("ERR unsupported command '%s'", singleLine(cmd))))
 		return
 	}
 
